@@ -29,6 +29,7 @@ RULE = ("seeded synthetic fatigue test series (Basquin curve + log-normal scatte
         "MaxLikeFull; each data set is re-analysed after scaling the loads, scaling the cycles (dyadic factors) and permuting the "
         "rows; scatter-free data on an exact Basquin line. Regression analyzers are compared at rtol 1e-9; for the two Nelder-Mead "
         "analyzers a relation holds if the parameters agree at rtol 1e-5 OR the transformed estimate is as likely as the "
+        "Widened during the build: early-failure levels, series without run-outs, changes of unit by 2^-24..2^20, bitwise row-order independence of the data object's properties, and analysis histories (the same series before and after a one-mixed-level series; the caller's fixed_parameters dictionary). "
         "directly computed one (|d logL| <= 2e-3). Non-trivial: data set with run-outs and scatter; distinct = distinct data set.")
 ASSUMPTIONS = ["Nelder-Mead stops on absolute xatol = fatol = 1e-4: parameters of an optimiser's answer are not a sound oracle on "
                "their own (flat likelihood directions), hence the likelihood-space alternative",
